@@ -1098,6 +1098,8 @@ def writeGraph(G, output_file, graph_type, file_format='autodetect'):
     if file_format == 'dot':
 
         G = G.to_networkx()
+        # the name of the graph ends up between double quotes, unescaped
+        G.name = str(G.name).replace('\\', '\\\\').replace('"', '\\"')
         networkx.nx_pydot.write_dot(G, output_file)
 
     elif file_format == 'gml':
